@@ -202,6 +202,8 @@ def decide(pid, mod, tier, seed, cases, results, wall):
         incon_reason = "no oracle evaluation was performed"
     elif n_by["inconclusive"] > 0.05 * total:
         incon_reason = "%d of %d cases inconclusive" % (n_by["inconclusive"], total)
+    elif n_by["discarded"] > 0.15 * total:
+        incon_reason = "%d of %d cases discarded (degenerate / badly conditioned inputs)" % (n_by["discarded"], total)
     elif missing_anchor:
         incon_reason = "anchored mechanism never entered: %s" % ",".join(missing_anchor)
     elif len(sigs) < 2:
